@@ -498,3 +498,12 @@ func contains(l []string, x string) bool {
 func stateTok(off int) string {
 	return base64.RawURLEncoding.EncodeToString([]byte(fmt.Sprintf(`{"offset":%d}`, off)))
 }
+
+// goid returns the id of the calling goroutine (parsed from its stack header; for attribution in hooks only).
+func goid() int64 {
+	var buf [64]byte
+	b := buf[:runtime.Stack(buf[:], false)]
+	b = b[len("goroutine "):]
+	id, _ := strconv.ParseInt(string(b[:bytes.IndexByte(b, ' ')]), 10, 64)
+	return id
+}
